@@ -389,7 +389,7 @@ def _gen_storage_program(rng, tier):
         tail.append("plaintext")
     users = [{"scheme": rng.choice(schemes), "pw": rng.choice(PWS)} for _ in range(rng.randint(1, 4))]
     ops = []
-    kinds = FAULT_KINDS["C08"][:-1]
+    kinds = FAULT_KINDS["C08"][:-1] + ["intact"]  # ("intact": the record exactly as stored, possibly handed over as bytes)
     if tier == "thorough" and rng.random() < 0.5:
         for i in range(len(users)):
             ops.append({"op": "sweep", "user": i, "what": rng.choice(["subst", "delete", "truncate", "dup", "insert"]), "as_bytes": rng.random() < 0.2})
@@ -731,7 +731,13 @@ class _PolicyRun:
         # one shadows is, by the attribution rule, read as the earlier one's)
         vr = _call(self.facts[s].handler.verify, attempt, h)
         pw_right = vr == ("ok", True)
-        r = _call(self.cc.verify_and_update, attempt, h, category=cat)
+        if self.alt():
+            ctx.probe("entry_point_alias")
+            # bytes in; (secret, hash, scheme, category) positionally. (a non-ASCII password stays text: bytes secrets are taken as
+            # "already encoded", and lmhash / nthash / mssql do not encode text as UTF-8)
+            r = _call(self.cc.verify_and_update, attempt.encode("ascii") if attempt.isascii() else attempt, h.encode("ascii"), None, cat)
+        else:
+            r = _call(self.cc.verify_and_update, attempt, h, category=cat)
         if r[0] == "exc":
             ctx.fail("C04", "verify-and-update-raises", f"verify_and_update({attempt!r}, {h!r}, category={cat!r}) raised {r[1]}: {r[2]}", exc=r[1])
         ok, new = r[1]
@@ -923,7 +929,7 @@ class _StorageRun:
                     oth = cand[op["pos"] % len(cand)]["hash"]
                 d = damage(base, op["kind"], op["pos"], op["byte"], oth)
                 rec["cur"] = d
-                ctx.fault(op["kind"])
+                ctx.fault(op["kind"]) if op["kind"] != "intact" else ctx.probe("intact_record_judged")
                 self.judge(rec, d, op["kind"], op.get("as_bytes"))
             elif op["op"] == "sweep":
                 h = rec["hash"]
@@ -1021,6 +1027,9 @@ class _StorageRun:
             if r[0] == "exc":
                 ctx.check(isinstance(r[2], (ValueError, TypeError)), "C08", "internal-error-escapes",
                           lambda: f"{name}{a!r} raised {r[1]}: {r[2]}", exc=r[1], func=repo_func(r[2]))
+                # the record as stored (text, or the same characters as bytes) is not damaged at all: every entry point answers
+                ctx.check(changed, "C08", "intact-record-raises",
+                          lambda: f"{name}{a!r} on the undamaged record ({'bytes' if as_bytes else 'text'}) raised {r[1]}: {r[2]}", exc=r[1], entry=name, **attrs)
                 outcomes[name] = "refused"
             else:
                 outcomes[name] = r[1]
